@@ -226,6 +226,8 @@ class WriteHeadUnit(Unit):
                     _, first = scenario((k, when), stale)
                     if first not in ('record-04', 'record-07'):
                         obs.append(f'process death {when} the {calls[k]}() call (#{k} of {calls}): the restarted reader starts with {first!r}{tag}')
+        from .c13 import replay_tell_at_end      # a position saved while the reader stands past the newest file, the writer goes on, restart
+        obs += replay_tell_at_end()
         return {'confirmed': bool(obs), 'inputs': f'second save of the position, death injected before / after each of its file-system calls {calls}', 'observed': obs[:4] or 'previous or new position after every crash point',
                 'required': 'a reader stopped at any instant restarts from the previously saved or the newly saved position'}
 
